@@ -15,6 +15,9 @@ import FordModel.TypeSpec
 import FordModel.Include
 import FordModel.IncludeCfg
 import FordModel.Lemmas.Include
+import FordModel.PassBack
+import FordModel.PassBackCfg
+import FordModel.Lemmas.PassBack
 namespace Ford.C02
 open Ford
 
@@ -559,5 +562,262 @@ example :
     two-state scanner the code uses now does not. -/
 theorem untermOld_witness :
     untermOld "''".toList false none none = true ∧ unterminated "''".toList = false := by decide
+
+
+/-! ## Round 6: the iterator protocol (`__next__` call by call, `pass_back`, `read_docstring`) -/
+
+/-- The stepwise model reads a physical line with the very text of the batch model: `Include.feedI`
+    *is* `Include.feedG` with the batch tail (`feedTailI`) plugged in, so every theorem above about
+    how a logical line is assembled (continuations, comments, literals, the `;` split) speaks about
+    the loop the iterator protocol runs. -/
+theorem line_step_shared_with_batch_model (c : Include.Cfg) (resolve : Str → Include.Res) (m : Marks)
+    (s : RS) (l : Str) :
+    Include.feedI c resolve m s l = Include.feedG [] (Include.feedTailI c resolve m) m s l := rfl
+
+/-- Separating statements with `;` - what is queued is served in line order: with the chain at the top
+    of `__next__` in the order the source has, a queued statement that is not an include line is the
+    next item, whatever is in `docbuffer`, and the rest of the queue stays as it is. -/
+theorem queued_statement_is_served_first (c : Include.Cfg) (resolve : Str → Include.Res) (m : Marks)
+    (st : PassBack.St) (p : Str) (rest : List Str) (hq : st.pending = p :: rest)
+    (hp : Include.look c.kwLoose resolve p = .keep) :
+    PassBack.next c resolve m PassBack.readerOrder st
+      = .ok (some (p, { st with rs := { st.rs with prevdoc := false }, pending := rest })) := by
+  have ho : PassBack.readerOrder = [.pending, .docbuffer] := by decide
+  cases hi : c.incPrologue <;>
+    simp [PassBack.next, PassBack.serve, PassBack.popPending, PassBack.includeCall, ho, hq, hp, hi]
+
+/-- Look-ahead is invisible: a statement handed back with `pass_back` - where the source puts it
+    (`readerFront`, regenerated) - is the very next item and the reader is then in the state in which
+    it was when it first returned that statement: queue, doc buffer and `prevdoc` included, so nothing
+    that follows (the other statements of a `;` line, their docs, blank-line handling) can change.
+    Hypotheses: the statement is not an include line that `include()` would expand when it sees it a
+    second time, and it was returned as a statement (`prevdoc = false` afterwards). -/
+theorem handed_back_statement_is_returned_next (c : Include.Cfg) (resolve : Str → Include.Res) (m : Marks)
+    (st : PassBack.St) (x : Str) (hx : Include.look c.kwLoose resolve x = .keep)
+    (hp : st.rs.prevdoc = false) :
+    PassBack.next c resolve m PassBack.readerOrder (PassBack.passBack PassBack.readerFront st x)
+      = .ok (some (x, st)) := by
+  have hf : PassBack.readerFront = true := by decide
+  rw [queued_statement_is_served_first c resolve m _ x st.pending (by simp [PassBack.passBack, hf]) hx]
+  obtain ⟨rs, pending, lines⟩ := st
+  obtain ⟨db, pd, ra, co, rp, rpa, lb⟩ := rs
+  simp_all [PassBack.passBack]
+
+/-- `;` and look-ahead together: a consumer that takes the queued statements of a logical line one by
+    one and - before any of them, in any pattern `peeks` - looks ahead (takes the item and hands it
+    back, as `read_docstring` does after every statement that can carry documentation) receives
+    exactly the statements of the line, each once, in line order.  Unbounded in the number of
+    statements and of look-aheads; `a; b; c` is read like `a` / `b` / `c` by the parser too. -/
+theorem semicolon_statements_reach_a_look_ahead_consumer_in_order (c : Include.Cfg)
+    (resolve : Str → Include.Res) (m : Marks) (q : List Str)
+    (hq : ∀ p ∈ q, Include.look c.kwLoose resolve p = .keep) :
+    ∀ (peeks : List Bool) (st : PassBack.St), peeks.length = q.length → st.pending = q →
+      PassBack.consume c resolve m PassBack.readerOrder PassBack.readerFront peeks st = .ok q := by
+  induction q with
+  | nil => intro peeks st hl _; cases peeks <;> simp_all [PassBack.consume]
+  | cons p rest ih =>
+    intro peeks st hl hst
+    cases peeks with
+    | nil => simp at hl
+    | cons pk more =>
+      have hp := hq p (by simp)
+      have hr : ∀ p ∈ rest, Include.look c.kwLoose resolve p = .keep := fun p h => hq p (by simp [h])
+      have hl' : more.length = rest.length := by simpa using hl
+      have h1 := ih hr more { st with rs := { st.rs with prevdoc := false }, pending := rest } hl' rfl
+      have h2 := handed_back_statement_is_returned_next c resolve m
+        { st with rs := { st.rs with prevdoc := false }, pending := rest } p hp rfl
+      rw [PassBack.consume, queued_statement_is_served_first c resolve m st p rest hst hp]
+      cases pk
+      · simp [h1, Except.map]
+      · simp [h1, h2, Except.map]
+
+/-- `read_docstring` as the source has it (`collectDocs` + `pass_back`): when its loop stopped at the
+    statement `x` (the doc lines in front of it collected, marks cut off), the reader it leaves
+    returns `x` next and is then where plain iteration would be after `x` - the parser's look-ahead
+    consumes doc lines only. -/
+theorem read_docstring_hands_the_statement_back (c : Include.Cfg) (resolve : Str → Include.Res) (m : Marks)
+    (fuel : Nat) (st st' : PassBack.St) (ds : List Str) (x : Str)
+    (h : PassBack.collectDocs c resolve m PassBack.readerOrder fuel st = .ok (some (ds, x, st')))
+    (hx : Include.look c.kwLoose resolve x = .keep) (hp : st'.rs.prevdoc = false) :
+    ∃ st'', PassBack.readDocstring c resolve m PassBack.readerOrder PassBack.readerFront fuel st
+              = .ok (some (ds, st'')) ∧
+            PassBack.next c resolve m PassBack.readerOrder st'' = .ok (some (x, st')) :=
+  ⟨PassBack.passBack PassBack.readerFront st' x, by simp [PassBack.readDocstring, h],
+   handed_back_statement_is_returned_next c resolve m st' x hx hp⟩
+
+/-- Why the place matters (and why it is a regenerated switch): with the handed-back line put *behind*
+    the queue, the consumer that looks ahead once on `a; b; c` receives `b`, `c`, `a`. -/
+theorem pass_back_behind_the_queue_reorders_witness :
+    (PassBack.consume ⟨true, true, true, true⟩ (fun _ => .missingH) Marks.default [.pending, .docbuffer] false
+      [true, false, false] { rs := {}, pending := [['a'], ['b'], ['c']], lines := [] }).toOption
+      = some [['b'], ['c'], ['a']] := by decide
+
+/-- ... and with the chain at the top of `__next__` in the other order a doc line queued for `a`
+    (`a !! da; b` read ahead) overtakes the statement that was handed back. -/
+theorem docbuffer_before_queue_reorders_witness :
+    (PassBack.consume ⟨true, true, true, true⟩ (fun _ => .missingH) Marks.default [.docbuffer, .pending] true
+      [true, false] { rs := { docbuffer := [['!', '!', 'd']] }, pending := [['a'], ['b']], lines := [] }).toOption
+      = some [['!', '!', 'd'], ['a']] := by decide
+
+/-- The protocol the model above is a reading of is the one in the source: the chain at the top of
+    `__next__` serves `pending` before `docbuffer` and nothing else (as it stands, or in the shape of
+    fixes/C02-include-without-statements.diff),
+    `pass_back` is `self.pending.insert(0, line)`, and `read_docstring` is the loop `collectDocs` reads
+    followed by one `pass_back`. -/
+theorem iterator_protocol_pinned :
+    Generated.C02.queueOrder = ["pending", "docbuffer"] ∧
+    (Generated.C02.nextHead = [
+       "if len(self.pending) != 0:", "    self.include()", "if len(self.pending) != 0:",
+       "    self.prevdoc = False", "    return self.pending.pop(0)",
+       "elif len(self.docbuffer) != 0:", "    self.prevdoc = True", "    return self.docbuffer.pop(0)"] ∨
+     Generated.C02.nextHead = [
+       "if len(self.pending) != 0:", "    self.include()",
+       "    self.prevdoc = False", "    return self.pending.pop(0)",
+       "elif len(self.docbuffer) != 0:", "    self.prevdoc = True", "    return self.docbuffer.pop(0)"]) ∧
+    Generated.C02.passBackMethod = ["self.pending.insert(0, line)"] ∧
+    Generated.C02.passBackFront = true ∧
+    Generated.C02.readDocstring = [
+      "docstring = []", "docmark = f'!{docmark}'", "length = len(docmark)",
+      "while (line := next(source)).startswith(docmark):", "    docstring.append(line[length:])",
+      "source.pass_back(line)", "return docstring"] := by
+  refine ⟨rfl, ?_, rfl, rfl, rfl⟩
+  first | exact Or.inl rfl | exact Or.inr rfl
+
+/-- Non-vacuity, through the whole stepwise reader: `x = 1; y = 'a;b'; z = 3 !! dz` followed by a doc
+    line, read with a look-ahead before every item, gives the three statements in order and then
+    the doc lines. -/
+example :
+    (PassBack.consume Include.readerCfg (fun _ => .missingH) Marks.default PassBack.readerOrder PassBack.readerFront
+      [true, true, true, false, false]
+      { rs := {}, pending := [], lines := [chars! "x = 1; y = 'a;b'; z = 3 !! dz", chars! "  !! more"] }).toOption
+      = some [chars! "x = 1", chars! "y = 'a;b'", chars! "z = 3", chars! "!! dz", chars! "!! more"] := by decide
+
+
+/-- The batch model and the iterator agree on the queue: whatever `Include.drain` (the model every
+    include / `;` theorem above is about) returns for a queue, the reader returns item by item, one
+    `__next__` after the other, re-examining the head of the queue with `include()` on every call -
+    for any number of statements, includes and nested items.  For the tree as it is read by the
+    translator with the re-testing pops (`guarded`), `include()` in front of the top pop, and under
+    the hypothesis that an item which came out of an included file is left alone when `include()`
+    sees it a second time (in a flat file system: an include statement survives a nested reader only
+    for a missing `.h` file, which is missing for the outer reader too). -/
+theorem queue_call_by_call_is_batch_drain_partial (c : Include.Cfg) (resolve : Str → Include.Res)
+    (hg : c.guarded = true) (hi : c.incPrologue = true)
+    (hs : ∀ p l, Include.look c.kwLoose resolve p = .splice l →
+            ∀ y ∈ l, Include.look c.kwLoose resolve y = .keep)
+    (q out : List Str) (h : Include.drain c resolve .prologue q = .ok out) :
+    PassBack.Drains c resolve true q out :=
+  PassBack.drains_of_drain c resolve hg hi hs q out h
+
+/-- non-vacuity of the hypotheses and the conclusion: `x = 1; include 'f.inc'; z = 3` with `f.inc`
+    yielding two items -/
+example :
+    PassBack.Drains ⟨true, true, true, true⟩
+      (fun n => if n == chars! "f.inc" then .items [chars! "y = 2", chars! "!! dy"] else .missingH) true
+      [chars! "x = 1", chars! "include 'f.inc'", chars! "z = 3"]
+      [chars! "x = 1", chars! "y = 2", chars! "!! dy", chars! "z = 3"] :=
+  .step (rest := [chars! "include 'f.inc'", chars! "z = 3"]) (by rfl)
+    (.step (rest := [chars! "!! dy", chars! "z = 3"]) (by rfl)
+      (.step (rest := [chars! "z = 3"]) (by rfl) (.step (rest := []) (by rfl) (.done (by rfl)))))
+
+
+/-- What becomes of a completed logical line is what `tailRaw` / `feedTailI` read: the buffer as it
+    is goes to the quote-aware split (`quoteSplit_lexical`: a `;` inside a literal never separates),
+    the non-empty pieces are stripped and queued - nothing else looks at or rewrites the text between
+    the continuation joining and the split. -/
+theorem split_site_pinned :
+    Generated.C02.splitSite = [
+      "frags = ford.utils.quote_split(';', linebuffer)",
+      "self.pending.extend([s.strip() for s in frags if len(s) > 0])"] := rfl
+
+
+/-- The doc lines of a logical line come after all of its statements: while statements are queued
+    nothing is taken from the doc buffer (`queued_statement_is_served_first`), and once the queue is
+    empty the buffered doc lines are returned one per call, in order, before anything new is read -
+    so `a; b !! d` gives `a`, `b`, `!! d` however many statements the line has. -/
+theorem buffered_doc_is_served_after_the_queue (c : Include.Cfg) (resolve : Str → Include.Res) (m : Marks)
+    (st : PassBack.St) (d : Str) (ds : List Str) (hq : st.pending = []) (hd : st.rs.docbuffer = d :: ds) :
+    PassBack.next c resolve m PassBack.readerOrder st
+      = .ok (some (d, { st with rs := { st.rs with docbuffer := ds, prevdoc := true }, pending := [] })) := by
+  have ho : PassBack.readerOrder = [.pending, .docbuffer] := by decide
+  simp [PassBack.next, PassBack.serve, PassBack.popPending, ho, hq, hd]
+
+/-- `read_docstring` called where no documentation follows (the next item is a queued statement)
+    returns no doc line and leaves the reader exactly as it was: the look-ahead the parser makes
+    after *every* declaration, procedure or type statement costs nothing when `;` put the next
+    statement on the same line. -/
+theorem read_docstring_without_docs_changes_nothing (c : Include.Cfg) (resolve : Str → Include.Res)
+    (m : Marks) (fuel : Nat) (st : PassBack.St) (p : Str) (rest : List Str) (hq : st.pending = p :: rest)
+    (hp : Include.look c.kwLoose resolve p = .keep) (hn : startsWith p ('!' :: m.doc) = false)
+    (hpd : st.rs.prevdoc = false) :
+    PassBack.readDocstring c resolve m PassBack.readerOrder PassBack.readerFront (fuel + 1) st
+      = .ok (some ([], st)) := by
+  have hf : PassBack.readerFront = true := by decide
+  simp only [PassBack.readDocstring, PassBack.collectDocs,
+    queued_statement_is_served_first c resolve m st p rest hq hp, hn]
+  obtain ⟨rs, pending, lines⟩ := st
+  obtain ⟨db, pd, ra, co, rp, rpa, lb⟩ := rs
+  simp_all [PassBack.passBack]
+
+
+/-- The reader as the parser uses it and the reader as the theorems above model it are the same
+    reader: for every file (any number of physical lines, continuations, doc blocks, `;` lines,
+    includes), when the batch model `readFromI` - the fold all layout, literal and include theorems
+    are about - gives the list `items`, successive calls of `__next__` (the if/elif chain in the
+    regenerated order, `include()` re-examining the head of the queue on every call, the doc buffer
+    after the queue, the loop entered again only when both are empty) return exactly `items`, one
+    per call, and then StopIteration.  For the tree with the re-testing pops and `include()` in front
+    of both pops (what the translator reads today), under the hypothesis that an item which came out
+    of an included file is left alone when `include()` sees it again (see
+    `queue_call_by_call_is_batch_drain_partial`). -/
+theorem iteration_call_by_call_is_batch_read_partial (c : Include.Cfg) (resolve : Str → Include.Res)
+    (m : Marks) (hg : c.guarded = true) (hi : c.incPrologue = true) (he : c.incEpilogue = true)
+    (hs : ∀ p l, Include.look c.kwLoose resolve p = .splice l →
+            ∀ y ∈ l, Include.look c.kwLoose resolve y = .keep)
+    (lines items : List Str) (h : Include.readFromI c resolve m {} lines = .ok items) :
+    PassBack.Yields c resolve m PassBack.readerOrder { rs := {}, pending := [], lines := lines } items := by
+  have ho : PassBack.readerOrder = PassBack.ord := by decide
+  rw [ho]
+  apply PassBack.after_to_yields
+  have hn : PassBack.next c resolve m PassBack.ord { rs := {}, pending := [], lines := lines }
+      = PassBack.readOn c resolve m {} lines := by
+    simp [PassBack.next, PassBack.serve, PassBack.ord, PassBack.popPending, PassBack.resetLocals]
+  rw [hn]
+  exact PassBack.readOn_yields_batch c resolve m hg hi he hs lines {} items h
+
+/-- the hypotheses about the tree hold for the tree the translator read -/
+theorem iteration_theorem_applies_to_this_tree_partial
+    (h : Generated.C02.popsGuarded = true) :
+    Include.readerCfg.guarded = true ∧ Include.readerCfg.incPrologue = true ∧
+    Include.readerCfg.incEpilogue = true := by
+  refine ⟨h, ?_, ?_⟩ <;> first | rfl | decide
+
+
+/-- **Layout invariance for the consumer FORD really has.**  For every file: when the batch model
+    gives `items`, a consumer that takes the items one by one and looks ahead - takes an item and
+    hands it back with `pass_back` - before any items that are not doc lines, in any pattern
+    (`read_docstring` after every statement is one such pattern), receives exactly `items`, in
+    order, each once.  So everything proved above about the batch list - `&` continuations, `;`,
+    comments, blank lines, literals, includes - holds for what the parser sees.  Same hypotheses as
+    `iteration_call_by_call_is_batch_read_partial`, plus: a statement that is looked at is not an
+    include line `include()` would expand on second sight.  The proof carries the invariant "every
+    buffered doc line starts with `!` + docmark" through the loop body (`Lemmas/PassBack.lean:
+    feedFront_docs` …), from which an item that is not a doc line was popped from the statement queue. -/
+theorem look_ahead_consumer_receives_batch_list_partial (c : Include.Cfg) (resolve : Str → Include.Res)
+    (m : Marks) (hg : c.guarded = true) (hi : c.incPrologue = true) (he : c.incEpilogue = true)
+    (hs : ∀ p l, Include.look c.kwLoose resolve p = .splice l →
+            ∀ y ∈ l, Include.look c.kwLoose resolve y = .keep)
+    (lines items : List Str) (h : Include.readFromI c resolve m {} lines = .ok items)
+    (hk : ∀ x ∈ items, startsWith x ('!' :: m.doc) = false → Include.look c.kwLoose resolve x = .keep)
+    (peeks : List Bool) (hl : peeks.length = items.length)
+    (hz : ∀ p ∈ peeks.zip items, p.1 = true → startsWith p.2 ('!' :: m.doc) = false) :
+    PassBack.consume c resolve m PassBack.readerOrder PassBack.readerFront peeks
+      { rs := {}, pending := [], lines := lines } = .ok items := by
+  have ho : PassBack.readerOrder = PassBack.ord := by decide
+  have hf : PassBack.readerFront = true := by decide
+  have hy := iteration_call_by_call_is_batch_read_partial c resolve m hg hi he hs lines items h
+  rw [ho] at hy ⊢
+  rw [hf]
+  exact PassBack.consume_of_yields c resolve m _ items hy (by intro d hd; simp at hd) hk peeks hl hz
 
 end Ford.C02
